@@ -181,6 +181,9 @@ func (eng *Engine) load(mirror string, patterns []string) error {
 			cls = append(cls, c.Ensures...)
 			cls = append(cls, c.Modifies...)
 			cls = append(cls, c.AllocExpr)
+			for _, cs := range c.Calls {
+				cls = append(cls, cs.Clause)
+			}
 			for _, o := range c.Olds {
 				cls = append(cls, o.Clause)
 			}
